@@ -271,6 +271,7 @@ def main(argv):
             'skipped_budget': agg['skipped_budget'],
             'excluded_known': agg['excluded_known'],
             'unconfirmed': len(agg['unconfirmed']),
+            'unconfirmed_samples': [{'family': u.get('family'), 'clause': u.get('clause'), 'detail': str(u.get('detail', ''))[:4000], 'params': u.get('params'), 'note': u.get('note')} for u in agg['unconfirmed'][:3]],
             'inconclusive_samples': agg.get('inconclusive_samples', []),
             'harness_errors': harness_errors[:5],
             'repo_head': head,
